@@ -323,6 +323,38 @@ func c12BootstrapTCP(c *core.Ctx, rng *rand.Rand) {
 	c.Count("tcp_bytes_echoed", atomic.LoadInt64(&got))
 }
 
+// c12SenderFailure: the background sender fails while writers keep writing and Close hands the queue over.
+func c12SenderFailure(c *core.Ctx, r int) {
+	rig := mon.NewRig(mon.RigOpts{Mode: mon.Mode(1 + r%2), Queue: 16, QuietTail: true, NoHooks: true})
+	defer rig.Dispose()
+	rig.T.AddFault(mon.Fault{Kind: mon.OpWritev, K: 2 + r%3, Err: errSentinel})
+	rig.T.OnOp = func(kind string, phase int) {
+		if kind == mon.OpWritev && phase == 0 {
+			time.Sleep(time.Duration(50+r%7*40) * time.Microsecond) // keep the sender busy so that packets queue up behind it
+		}
+	}
+	var wg sync.WaitGroup
+	for g := 0; g < 4; g++ {
+		wg.Add(1)
+		go func(g int) {
+			defer wg.Done()
+			defer func() { recover() }()
+			buf := mon.Payload(g, 0, 48)
+			for i := 0; i < 300; i++ {
+				if _, err := rig.Ch.Write1(buf); err != nil && i > 50 {
+					// keep going a little after the failure: Close is handing over meanwhile
+					if !rig.Ch.IsActive() && i%4 == 0 {
+						return
+					}
+				}
+			}
+		}(g)
+	}
+	wg.Wait()
+	rig.Ex.WaitOutstanding(0, 10*time.Second)
+	c.Count("sender_failure_rounds", 1)
+}
+
 func c12Pools(c *core.Ctx, iters int) {
 	var wg sync.WaitGroup
 	for g := 0; g < 16; g++ {
@@ -400,6 +432,12 @@ func runC12(c *core.Ctx) {
 		if c.Case(id) {
 			c12BootstrapTCP(c, c.Rand("bstcp", r, c.Shard))
 			c.Sig("bootstrap-tcp", r%4)
+		}
+	}
+	for r := 0; r < c.Scale(30, 300); r++ {
+		if c.Case(fmt.Sprintf("sender-failure/r%d", r)) {
+			c12SenderFailure(c, r+c.Shard*1000)
+			c.Sig("sender-failure", r%6)
 		}
 	}
 	if c.Case("pools") {
